@@ -49,6 +49,10 @@ pub struct Qcow2Dev<T> {
 
     // set in case that any dirty meta is made
     need_flush: AtomicBool,
+    // A barrier (fsync) has failed and none has succeeded since: what was
+    // written before it is still not ordered against anything written
+    // later, so the barrier is repeated before the next meta data write.
+    barrier_failed: AtomicBool,
     flush_lock: AsyncMutex<()>,
 
     // Serializes write-back of refcount meta. The dirty flag of a slice is
@@ -127,6 +131,7 @@ impl<T: Qcow2IoOps> Qcow2Dev<T> {
             refblock_cache: AsyncLruCache::new(rb_cache_cnt),
             new_cluster: AsyncRwLock::new(Default::default()),
             need_flush: AtomicBool::new(false),
+            barrier_failed: AtomicBool::new(false),
             flush_lock: AsyncMutex::new(()),
             refcount_wb_lock: AsyncMutex::new(()),
             data_io_gate: AsyncRwLock::new(()),
